@@ -24,6 +24,9 @@ import (
 
 	"github.com/obolnetwork/charon/app/eth2wrap"
 	"github.com/obolnetwork/charon/app/log"
+	"github.com/obolnetwork/charon/core"
+	"github.com/obolnetwork/charon/core/validatorapi"
+	"github.com/obolnetwork/charon/tbls"
 	"github.com/obolnetwork/charon/testutil/beaconmock"
 
 	"verif/harness/hx"
@@ -61,6 +64,9 @@ type Op struct {
 	// re-slicing) right before the call. B == 0: a fresh slice per call.
 	B     int      `json:"b,omitempty"`
 	Idxs2 []uint64 `json:"idxs2,omitempty"`
+	// Via "vapi": the call is made by a validator client through validatorapi.Component
+	// (ProposerDuties / AttesterDuties / SyncCommitteeDuties), which consults the same duties cache.
+	Via string `json:"via,omitempty"`
 }
 
 // History is a script and what was observed when it ran.
@@ -74,6 +80,11 @@ type History struct {
 	Labels  []string `json:"labels"`
 	// Alias: direct aliasing probes that failed ("<kind>: ...").
 	Alias []string `json:"alias,omitempty"`
+	// Outsider: validator NV-1 is not a validator of the cluster (the validator API knows no public share for it).
+	Outsider bool `json:"outsider,omitempty"`
+	// Consumer: answers of the validator API that differ from what the duties cache handed to it ("<kind>: ...").
+	Consumer  []string `json:"consumer,omitempty"`
+	VapiCalls int      `json:"vapi_calls"`
 	// Errors: harness-level anomalies (unexpected error from a call, beacon asked for another epoch, ...).
 	Errors     []string `json:"errors,omitempty"`
 	Hits       int      `json:"hits"`
@@ -96,8 +107,8 @@ func mix(seed, k, ep, g, v uint64) uint64 {
 
 var cntTab = [3][8]uint64{
 	{0, 1, 1, 2, 1, 0, 3, 1},
-	{0, 1, 1, 1, 1, 0, 1, 1},
-	{0, 1, 0, 1, 1, 0, 1, 0},
+	{0, 1, 1, 1, 1, 0, 2, 1},
+	{0, 1, 0, 1, 2, 0, 1, 0},
 }
 
 type duty struct{ V, P uint64 }
@@ -158,6 +169,13 @@ func fromIdx(l []eth2p0.ValidatorIndex) []uint64 {
 
 func pubkey(v uint64) (pk eth2p0.BLSPubKey) {
 	pk[0], pk[1], pk[47] = byte(v), byte(v>>8), 0xc2
+	return pk
+}
+
+// share is the public key share the validator API substitutes for the root key of validator v.
+func share(v uint64) (pk eth2p0.BLSPubKey) {
+	pk = pubkey(v)
+	pk[2] = 0x5a
 	return pk
 }
 
@@ -251,6 +269,12 @@ type callSt struct {
 	res    []duty
 	rmeta  uint64
 	mutate func() // overwrites everything reachable from the answer the caller received
+
+	via       string
+	cacheHit  bool // the validator API consulted the duties cache: its answer is in cacheRes/cacheMeta/cacheErr
+	cacheRes  []duty
+	cacheMeta uint64
+	cacheErr  error
 }
 
 type world struct {
@@ -260,6 +284,9 @@ type world struct {
 	reorgs []uint64
 	calls  map[int]*callSt
 	errs   []string
+
+	outsider bool
+	consumer []string
 }
 
 func (w *world) egen(ep uint64) uint64 {
@@ -359,7 +386,67 @@ func (c client) SyncCommitteeDuties(ctx context.Context, opts *eth2api.SyncCommi
 var _ eth2wrap.Client = client{}
 
 // doCall performs the cache call of cs and records its outcome in cs.
-func doCall(ctx context.Context, c *eth2wrap.DutiesCache, w *world, cs *callSt, vidxs []eth2p0.ValidatorIndex, own bool) {
+// inCluster reports whether the validator API knows a public share for validator v.
+func (w *world) inCluster(v uint64) bool { return !(w.outsider && v == w.nv-1) }
+
+// unshare undoes the validator API's documented substitution (root public key -> this node's public
+// share): a cluster validator's duty must carry exactly its share; an unknown validator's key is left as is.
+func (w *world) unshare(v uint64, pk eth2p0.BLSPubKey) eth2p0.BLSPubKey {
+	if !w.inCluster(v) {
+		return pk
+	}
+	if pk == share(v) {
+		return pubkey(v)
+	}
+	pk[5] ^= 0x77 // not substituted, or another validator's share: shows up as a malformed duty
+
+	return pk
+}
+
+// record keeps what the duties cache handed to the validator API for the scripted call of ctx.
+func (w *world) record(ctx context.Context, ds []duty, meta uint64, err error) {
+	cid, _ := ctx.Value(cidKey{}).(int)
+	w.mu.Lock()
+	defer w.mu.Unlock()
+	if cs := w.calls[cid]; cs != nil {
+		cs.cacheHit, cs.cacheRes, cs.cacheMeta, cs.cacheErr = true, ds, meta, err
+	}
+}
+
+func sameDuties(a, b []duty) bool {
+	less := func(p, q duty) int {
+		if p.V != q.V {
+			if p.V < q.V {
+				return -1
+			}
+			return 1
+		}
+		if p.P < q.P {
+			return -1
+		} else if p.P > q.P {
+			return 1
+		}
+		return 0
+	}
+	x, y := slices.Clone(a), slices.Clone(b)
+	slices.SortFunc(x, less)
+	slices.SortFunc(y, less)
+
+	return slices.Equal(x, y)
+}
+
+func mutMeta(md map[string]any) {
+	for key := range md {
+		md[key] = uint64(424242)
+	}
+	if md != nil {
+		md["x"] = "y"
+	}
+}
+
+// doCall performs the call of cs (directly on the duties cache, or as a validator client through the
+// validator API component in front of it) and records its outcome in cs.
+func doCall(ctx context.Context, c *eth2wrap.DutiesCache, comp *validatorapi.Component, w *world, cs *callSt, vidxs []eth2p0.ValidatorIndex, own bool) {
 	keep := slices.Clone(vidxs)
 	var (
 		res   []duty
@@ -367,72 +454,109 @@ func doCall(ctx context.Context, c *eth2wrap.DutiesCache, w *world, cs *callSt, 
 		err   error
 		mut   func()
 	)
+	vapi := cs.via == "vapi"
 	switch cs.k {
 	case 0:
-		r, e := c.ProposerDutiesCache(ctx, eth2p0.Epoch(cs.ep), vidxs)
-		err = e
-		for _, x := range r.Duties {
+		var (
+			ds []*eth2v1.ProposerDuty
+			md map[string]any
+		)
+		if vapi {
+			resp, e := comp.ProposerDuties(ctx, &eth2api.ProposerDutiesOpts{Epoch: eth2p0.Epoch(cs.ep), Indices: vidxs})
+			err = e
+			if resp != nil {
+				ds, md = resp.Data, resp.Metadata
+			}
+		} else {
+			r, e := c.ProposerDutiesCache(ctx, eth2p0.Epoch(cs.ep), vidxs)
+			err, ds, md = e, r.Duties, r.Metadata
+		}
+		for _, x := range ds {
+			if vapi && x != nil {
+				cp := *x
+				cp.PubKey = w.unshare(uint64(x.ValidatorIndex), x.PubKey)
+				x = &cp
+			}
 			res = append(res, unProp(x))
 		}
-		rmeta = unMeta(r.Metadata)
+		rmeta = unMeta(md)
 		mut = func() {
-			for i, x := range r.Duties {
+			for i, x := range ds {
 				x.Slot += 5000
 				x.ValidatorIndex += 5000
 				x.PubKey[3] ^= 0xff
-				r.Duties[i] = &eth2v1.ProposerDuty{}
+				ds[i] = &eth2v1.ProposerDuty{}
 			}
-			for key := range r.Metadata {
-				r.Metadata[key] = uint64(424242)
-			}
-			if r.Metadata != nil {
-				r.Metadata["x"] = "y"
-			}
+			mutMeta(md)
 		}
 	case 1:
-		r, e := c.AttesterDutiesCache(ctx, eth2p0.Epoch(cs.ep), vidxs)
-		err = e
-		for _, x := range r.Duties {
+		var (
+			ds []*eth2v1.AttesterDuty
+			md map[string]any
+		)
+		if vapi {
+			resp, e := comp.AttesterDuties(ctx, &eth2api.AttesterDutiesOpts{Epoch: eth2p0.Epoch(cs.ep), Indices: vidxs})
+			err = e
+			if resp != nil {
+				ds, md = resp.Data, resp.Metadata
+			}
+		} else {
+			r, e := c.AttesterDutiesCache(ctx, eth2p0.Epoch(cs.ep), vidxs)
+			err, ds, md = e, r.Duties, r.Metadata
+		}
+		for _, x := range ds {
+			if vapi && x != nil {
+				cp := *x
+				cp.PubKey = w.unshare(uint64(x.ValidatorIndex), x.PubKey)
+				x = &cp
+			}
 			res = append(res, unAtt(x))
 		}
-		rmeta = unMeta(r.Metadata)
+		rmeta = unMeta(md)
 		mut = func() {
-			for i, x := range r.Duties {
+			for i, x := range ds {
 				x.Slot += 5000
 				x.ValidatorIndex += 5000
 				x.CommitteeIndex += 3
 				x.PubKey[3] ^= 0xff
-				r.Duties[i] = &eth2v1.AttesterDuty{}
+				ds[i] = &eth2v1.AttesterDuty{}
 			}
-			for key := range r.Metadata {
-				r.Metadata[key] = uint64(424242)
-			}
-			if r.Metadata != nil {
-				r.Metadata["x"] = "y"
-			}
+			mutMeta(md)
 		}
 	case 2:
-		r, e := c.SyncCommDutiesCache(ctx, eth2p0.Epoch(cs.ep), vidxs)
-		err = e
-		for _, x := range r.Duties {
+		var (
+			ds []*eth2v1.SyncCommitteeDuty
+			md map[string]any
+		)
+		if vapi {
+			resp, e := comp.SyncCommitteeDuties(ctx, &eth2api.SyncCommitteeDutiesOpts{Epoch: eth2p0.Epoch(cs.ep), Indices: vidxs})
+			err = e
+			if resp != nil {
+				ds, md = resp.Data, resp.Metadata
+			}
+		} else {
+			r, e := c.SyncCommDutiesCache(ctx, eth2p0.Epoch(cs.ep), vidxs)
+			err, ds, md = e, r.Duties, r.Metadata
+		}
+		for _, x := range ds {
+			if vapi && x != nil {
+				cp := *x
+				cp.PubKey = w.unshare(uint64(x.ValidatorIndex), x.PubKey)
+				x = &cp
+			}
 			res = append(res, unSync(x))
 		}
-		rmeta = unMeta(r.Metadata)
+		rmeta = unMeta(md)
 		mut = func() {
-			for i, x := range r.Duties {
+			for i, x := range ds {
 				for j := range x.ValidatorSyncCommitteeIndices {
 					x.ValidatorSyncCommitteeIndices[j] += 5000
 				}
 				x.ValidatorIndex += 5000
 				x.PubKey[3] ^= 0xff
-				r.Duties[i] = &eth2v1.SyncCommitteeDuty{}
+				ds[i] = &eth2v1.SyncCommitteeDuty{}
 			}
-			for key := range r.Metadata {
-				r.Metadata[key] = uint64(424242)
-			}
-			if r.Metadata != nil {
-				r.Metadata["x"] = "y"
-			}
+			mutMeta(md)
 		}
 	}
 	w.mu.Lock()
@@ -440,19 +564,110 @@ func doCall(ctx context.Context, c *eth2wrap.DutiesCache, w *world, cs *callSt, 
 	if own && !slices.Equal(keep, vidxs) {
 		w.errs = append(w.errs, "the caller's index slice was modified")
 	}
+	if vapi {
+		// The consumer layer: what the validator client receives must be what the duties cache handed to the
+		// validator API (which the model and the monitors compare with the beacon node), after the documented
+		// share substitution. Unchanged code: proposer duties of unknown validators are passed through with
+		// their root key; attester / sync duties of an unknown validator make the request fail; sync metadata
+		// is not forwarded.
+		vres, vmeta, verr := res, rmeta, err
+		say := func(f string, a ...any) {
+			w.consumer = append(w.consumer, fmt.Sprintf("%s: epoch %d indices %v: ", kindKey[cs.k], cs.ep, fromIdx(keep))+fmt.Sprintf(f, a...))
+		}
+		if !cs.cacheHit {
+			say("the validator API answered %v (err %v) without consulting the duties cache", vres, verr)
+		} else {
+			res, rmeta, err = cs.cacheRes, cs.cacheMeta, cs.cacheErr // the model is told the cache-level answer
+			expectErr := cs.cacheErr != nil
+			if cs.k != 0 {
+				for _, d := range cs.cacheRes {
+					if !w.inCluster(d.V) {
+						expectErr = true
+					}
+				}
+			}
+			switch {
+			case expectErr && verr == nil:
+				say("the validator API answered %v although the request must fail (cache error %v / duty of a validator outside the cluster)", vres, cs.cacheErr)
+			case !expectErr && verr != nil:
+				say("the validator API failed (%v) although the duties cache answered %v", verr, cs.cacheRes)
+			case !expectErr && !sameDuties(vres, cs.cacheRes):
+				say("the validator API answered %v, the duties cache (= the beacon node, see the answer monitor) answered %v", vres, cs.cacheRes)
+			case !expectErr && cs.k != 2 && vmeta != cs.cacheMeta:
+				say("the validator API answered metadata %d, the duties cache %d", vmeta, cs.cacheMeta)
+			}
+		}
+	}
 	cs.done, cs.err, cs.res, cs.rmeta, cs.mutate = true, err, res, rmeta, mut
+}
+
+// newComponent builds the validator API component of one cluster node in front of the duties cache c, the way
+// app.go wires them: the component's beacon client serves *DutiesCache calls from the real cache (here through a
+// recorder that keeps what the cache handed out), everything else is the scripted beacon client.
+func newComponent(t *testing.T, c *eth2wrap.DutiesCache, w *world) *validatorapi.Component {
+	t.Helper()
+	vcl := client{w: w}
+	vcl.Mock.CachedProposerDutiesFunc = func(ctx context.Context, ep eth2p0.Epoch, idxs []eth2p0.ValidatorIndex) (eth2wrap.ProposerDutyWithMeta, error) {
+		r, err := c.ProposerDutiesCache(ctx, ep, idxs)
+		var ds []duty
+		for _, x := range r.Duties {
+			ds = append(ds, unProp(x))
+		}
+		w.record(ctx, ds, unMeta(r.Metadata), err)
+
+		return r, err
+	}
+	vcl.Mock.CachedAttesterDutiesFunc = func(ctx context.Context, ep eth2p0.Epoch, idxs []eth2p0.ValidatorIndex) (eth2wrap.AttesterDutyWithMeta, error) {
+		r, err := c.AttesterDutiesCache(ctx, ep, idxs)
+		var ds []duty
+		for _, x := range r.Duties {
+			ds = append(ds, unAtt(x))
+		}
+		w.record(ctx, ds, unMeta(r.Metadata), err)
+
+		return r, err
+	}
+	vcl.Mock.CachedSyncCommDutiesFunc = func(ctx context.Context, ep eth2p0.Epoch, idxs []eth2p0.ValidatorIndex) (eth2wrap.SyncDutyWithMeta, error) {
+		r, err := c.SyncCommDutiesCache(ctx, ep, idxs)
+		var ds []duty
+		for _, x := range r.Duties {
+			ds = append(ds, unSync(x))
+		}
+		w.record(ctx, ds, unMeta(r.Metadata), err)
+
+		return r, err
+	}
+	shares := make(map[core.PubKey]map[int]tbls.PublicKey)
+	for v := uint64(0); v < w.nv; v++ {
+		if !w.inCluster(v) {
+			continue
+		}
+		pk, sh := pubkey(v), share(v)
+		ck, err := core.PubKeyFromBytes(pk[:])
+		if err != nil {
+			t.Fatal(err)
+		}
+		shares[ck] = map[int]tbls.PublicKey{1: tbls.PublicKey(sh)}
+	}
+	comp, err := validatorapi.NewComponent(vcl, shares, 1, nil, false, 30000000)
+	if err != nil {
+		t.Fatal(err)
+	}
+
+	return comp
 }
 
 // runScript executes one script against a fresh cache and fills in the observations.
 func runScript(t *testing.T, h *History) {
 	t.Helper()
-	h.Labels, h.Alias, h.Errors = nil, nil, nil
+	h.Labels, h.Alias, h.Errors, h.Consumer, h.VapiCalls = nil, nil, nil, nil, 0
 	h.Hits, h.Partials, h.Misses, h.Refused, h.Overlap = 0, 0, 0, 0, false
 	synctest.Test(t, func(t *testing.T) {
 		obsCore, logs := observer.New(zap.DebugLevel)
 		base := log.WithLogger(context.Background(), zap.New(obsCore))
-		w := &world{seed: h.Seed, nv: h.NV, calls: map[int]*callSt{}}
+		w := &world{seed: h.Seed, nv: h.NV, calls: map[int]*callSt{}, outsider: h.Outsider}
 		c := eth2wrap.NewDutiesCache(client{w: w}, toIdx(slices.Clone(h.Active0)))
+		comp := newComponent(t, c, w)
 		active := slices.Clone(h.Active0)
 		seenLogs := 0
 		held := 0
@@ -514,7 +729,10 @@ func runScript(t *testing.T, h *History) {
 			emit(fmt.Sprintf("LReturn %d%%nat %s %d", cid, dutyList(cs.res), cs.rmeta))
 		}
 		start := func(cid int, op Op) *callSt {
-			cs := &callSt{k: op.K, ep: op.Ep, mode: op.Mode, fail: op.Fail, release: make(chan struct{})}
+			cs := &callSt{k: op.K, ep: op.Ep, mode: op.Mode, fail: op.Fail, release: make(chan struct{}), via: op.Via}
+			if op.Via == "vapi" {
+				h.VapiCalls++
+			}
 			if cs.mode == "" {
 				cs.mode = "seq"
 			}
@@ -526,9 +744,9 @@ func runScript(t *testing.T, h *History) {
 			}
 			ctx := context.WithValue(base, cidKey{}, cid)
 			if op.B > 0 {
-				go doCall(ctx, c, w, cs, setBuf(op.B, op.Idxs), false)
+				go doCall(ctx, c, comp, w, cs, setBuf(op.B, op.Idxs), false)
 			} else {
-				go doCall(ctx, c, w, cs, toIdx(op.Idxs), true)
+				go doCall(ctx, c, comp, w, cs, toIdx(op.Idxs), true)
 			}
 			synctest.Wait()
 			idxs := natList(op.Idxs)
@@ -713,6 +931,7 @@ func runScript(t *testing.T, h *History) {
 			finish(cid, cs, cs.mode == "release")
 		}
 		h.Errors = append(h.Errors, w.errs...)
+		h.Consumer = append(h.Consumer, w.consumer...)
 	})
 	h.NonTrivial = h.Hits > 0 && h.Partials > 0 && hasOp(h.Script, "invalidate", "trim")
 }
@@ -776,6 +995,7 @@ func gen(r *rand.Rand, kind string) History {
 	if h.Active0 == nil {
 		h.Active0 = []uint64{}
 	}
+	h.Outsider = r.Intn(4) == 0
 	nEp := 2 + r.Intn(3)
 	baseEp := uint64(r.Intn(6))
 	var epochs []uint64
@@ -809,6 +1029,9 @@ func gen(r *rand.Rand, kind string) History {
 			}
 			if r.Intn(3) == 0 {
 				op.B = 1 + r.Intn(2) // this caller reuses its own index buffer
+			}
+			if r.Intn(3) == 0 {
+				op.Via = "vapi" // a validator client asking through the validator API
 			}
 			op.Fail = r.Intn(25) == 0
 			h.Script = append(h.Script, op)
@@ -938,6 +1161,24 @@ func corpus() []History {
 			{Op: "bufprobe", K: k, Ep: 7, Idxs: []uint64{1, 3}, Idxs2: []uint64{2, 7}, Mode: "append", B: 2},
 			{Op: "bufprobe", K: k, Ep: 8, Idxs: []uint64{0, 1, 2, 3, 4, 5}, Idxs2: []uint64{6, 7}, Mode: "append", B: 1},
 		}})
+	}
+	for k := 0; k < 3; k++ {
+		// a validator client behind the validator API: cold, no duty, several duties (amend), repeated, superset,
+		// reordered -- mixed with the scheduler asking the cache directly (seeds with several duties per validator)
+		for _, seed := range []uint64{5, 17, 21} {
+			hs = append(hs, History{Kind: "corpus-vapi", Seed: seed, NV: 8, Active0: all, Script: []Op{
+				{Op: "call", C: 0, K: k, Ep: 1, Idxs: []uint64{2}, Mode: "seq", Via: "vapi"},
+				{Op: "call", C: 1, K: k, Ep: 1, Idxs: []uint64{3}, Mode: "seq", Via: "vapi"},
+				{Op: "call", C: 2, K: k, Ep: 1, Idxs: []uint64{0, 6}, Mode: "seq", Via: "vapi"},
+				{Op: "call", C: 3, K: k, Ep: 1, Idxs: []uint64{0, 6}, Mode: "seq", Via: "vapi"},
+				{Op: "call", C: 4, K: k, Ep: 1, Idxs: all, Mode: "seq"},
+				{Op: "call", C: 5, K: k, Ep: 1, Idxs: all, Mode: "seq", Via: "vapi"},
+				{Op: "call", C: 6, K: k, Ep: 1, Idxs: []uint64{6, 2, 0}, Mode: "seq", Via: "vapi"},
+				{Op: "call", C: 7, K: k, Ep: 1, Idxs: nil, Mode: "seq", Via: "vapi"},
+				{Op: "call", C: 8, K: k, Ep: 2, Idxs: all, Mode: "seq", Via: "vapi"},
+				{Op: "call", C: 9, K: k, Ep: 2, Idxs: []uint64{7, 1}, Mode: "seq", Via: "vapi"},
+			}})
+		}
 	}
 	// N3 (outside the property: not an index set): a request naming an index twice on the amend path
 	hs = append(hs, History{Kind: "dup", Seed: 5, NV: 8, Active0: all, Script: []Op{
